@@ -25,6 +25,21 @@ use hv_sim::driver::{Req, Shared, next_script, with_script};
 use hv_sim::rig::{Rig, probe_keys};
 use hydro_lang::sim::compiled::verif_run_hooks;
 
+/// where events go: the trace file, or memory (runs inside the bolero engine's closure)
+trait Sink {
+    fn put(&mut self, v: Value);
+}
+impl Sink for Trace {
+    fn put(&mut self, v: Value) {
+        self.ev(v)
+    }
+}
+impl Sink for Vec<Value> {
+    fn put(&mut self, v: Value) {
+        self.push(v)
+    }
+}
+
 #[derive(Clone, Debug)]
 enum Step {
     Enq(usize, u32, u32),
@@ -93,7 +108,7 @@ struct StepResult {
 fn run_step(
     rig: &mut Rig,
     step: &Step,
-    t: &mut Option<&mut Trace>,
+    t: &mut Option<&mut dyn Sink>,
     install: &mut dyn FnMut(&mut dyn FnMut()) -> (Vec<Req>, bool),
 ) -> StepResult {
     let n = rig.hooks.len();
@@ -122,7 +137,7 @@ fn run_step(
         };
     }
     if let Some(t) = t.as_deref_mut() {
-        t.ev(json!({"e":"tick","hs":hs.iter().map(|h| h+1).collect::<Vec<_>>(),"must": must as u8}));
+        t.put(json!({"e":"tick","hs":hs.iter().map(|h| h+1).collect::<Vec<_>>(),"must": must as u8}));
     }
     let mut panic_msg = None;
     let (reqs, misfit) = {
@@ -150,16 +165,16 @@ fn run_step(
         // (trivial) release, so every hook of the tick gets a rel event unless the call panicked
         if panic_msg.is_none() || !b.is_empty() {
             if let Some(t) = t.as_deref_mut() {
-                t.ev(json!({"e":"rel","h":h+1,"b":b.iter().map(|(k,v)| json!([k,v])).collect::<Vec<_>>(),"q":rig.queue(h)}));
+                t.put(json!({"e":"rel","h":h+1,"b":b.iter().map(|(k,v)| json!([k,v])).collect::<Vec<_>>(),"q":rig.queue(h)}));
             }
             rels.push((h, b));
         }
     }
     if let Some(t) = t.as_deref_mut() {
         if let Some(m) = &panic_msg {
-            t.ev(json!({"e":"panic","msg":m}));
+            t.put(json!({"e":"panic","msg":m}));
         }
-        t.ev(json!({"e":"endtick"}));
+        t.put(json!({"e":"endtick"}));
     }
     StepResult {
         rels,
@@ -183,7 +198,7 @@ fn script_installer(script: Vec<u64>) -> impl FnMut(&mut dyn FnMut()) -> (Vec<Re
 }
 
 /// Run the scripted steps `steps[..upto]` on a fresh rig, logging into `t`.
-fn run_prefix(case: &Case, upto: usize, keys: [u32; 2], t: &mut Option<&mut Trace>, drift: &mut Vec<Value>) -> Rig {
+fn run_prefix(case: &Case, upto: usize, keys: [u32; 2], t: &mut Option<&mut dyn Sink>, drift: &mut Vec<Value>) -> Rig {
     let mut rig = Rig::new(&case.kinds, keys);
     let mut pi = 0;
     for step in &case.steps[..upto] {
@@ -191,7 +206,7 @@ fn run_prefix(case: &Case, upto: usize, keys: [u32; 2], t: &mut Option<&mut Trac
             Step::Enq(h, k, v) => {
                 rig.enqueue(*h, *k, *v);
                 if let Some(t) = t.as_deref_mut() {
-                    t.ev(json!({"e":"enq","h":h+1,"k":k,"v":v}));
+                    t.put(json!({"e":"enq","h":h+1,"k":k,"v":v}));
                 }
             }
             Step::Tick(Some(s)) | Step::Dec(_, _, Some(s)) => {
@@ -222,6 +237,12 @@ fn run_prefix(case: &Case, upto: usize, keys: [u32; 2], t: &mut Option<&mut Trac
     rig
 }
 
+/// state the scripted prefix left behind (all pending queues); equal for every run of a
+/// situation unless the implementation is nondeterministic
+fn prefix_sig(rig: &Rig) -> String {
+    (0..rig.hooks.len()).map(|h| rig.queue(h).to_string()).collect::<Vec<_>>().join(";")
+}
+
 fn outcome_json(rels: &Rels, panic: &Option<String>) -> Value {
     let mut v: Vec<Value> = rels
         .iter()
@@ -234,6 +255,7 @@ fn outcome_json(rels: &Rels, panic: &Option<String>) -> Value {
 }
 
 thread_local! {
+    static SIGS: RefCell<BTreeSet<String>> = const { RefCell::new(BTreeSet::new()) };
     static EXH: RefCell<Vec<(String, Value, Vec<Value>)>> = const { RefCell::new(vec![]) };
 }
 
@@ -249,7 +271,7 @@ fn main() {
             for c in &cases {
                 let case = parse_case(c);
                 t.ev(json!({"e":"reset","case":case.id,"hooks":case.kinds}));
-                let mut tt = Some(&mut t);
+                let mut tt: Option<&mut dyn Sink> = Some(&mut t);
                 run_prefix(&case, case.steps.len(), keys, &mut tt, &mut drift);
                 n += 1;
             }
@@ -276,11 +298,13 @@ fn main() {
                 let mut scripts = 0usize;
                 let mut script: Vec<u64> = vec![];
                 let mut skipped = false;
+                let mut sigs: BTreeSet<String> = BTreeSet::new();
                 loop {
                     caseno += 1;
                     t.ev(json!({"e":"reset","case":caseno,"cfg":cfg.id,"hooks":cfg.kinds,"how":"dfs","script":script}));
-                    let mut tt = Some(&mut t);
+                    let mut tt: Option<&mut dyn Sink> = Some(&mut t);
                     let mut rig = run_prefix(&cfg, last, keys, &mut tt, &mut drift);
+                    sigs.insert(prefix_sig(&rig));
                     let mut inst = script_installer(script.clone());
                     let r = run_step(&mut rig, &fin, &mut tt, &mut inst);
                     nruns += 1;
@@ -299,6 +323,7 @@ fn main() {
 
                 // (b) the real bolero exhaustive engine, set up as CompiledSim::exhaustive does
                 EXH.with(|e| e.borrow_mut().clear());
+                SIGS.with(|s| s.borrow_mut().clear());
                 let mut exh_runs = 0usize;
                 if !skipped {
                     let cfg_ref = &cfg;
@@ -317,36 +342,24 @@ fn main() {
                     .exhaustive()
                     .run_with_replay(move |_is_replay| {
                         counter_ref.fetch_add(1, std::sync::atomic::Ordering::Relaxed);
-                        let mut local = Trace::create("/dev/null");
-                        let mut tt = Some(&mut local);
+                        let mut events: Vec<Value> = vec![];
                         let mut d = vec![];
                         // the scripted prefix installs its own ScriptDriver inside the scope
-                        // of the exhaustive driver and restores it afterwards
-                        let mut rig = run_prefix(cfg_ref, last, keys, &mut tt, &mut d);
-                        let mut events: Vec<Value> = vec![];
+                        // of the exhaustive driver and restores it afterwards; everything is
+                        // logged from THIS run (prefix included)
+                        let mut rig = {
+                            let mut tt: Option<&mut dyn Sink> = Some(&mut events);
+                            run_prefix(cfg_ref, last, keys, &mut tt, &mut d)
+                        };
+                        SIGS.with(|s| s.borrow_mut().insert(prefix_sig(&rig)));
                         let mut inst = |body: &mut dyn FnMut()| -> (Vec<Req>, bool) {
                             body();
                             (vec![], false)
                         };
                         let r = {
-                            let mut none: Option<&mut Trace> = None;
-                            run_step(&mut rig, fin_ref, &mut none, &mut inst)
+                            let mut tt: Option<&mut dyn Sink> = Some(&mut events);
+                            run_step(&mut rig, fin_ref, &mut tt, &mut inst)
                         };
-                        // rebuild the events of the final step for the trace
-                        let n = rig.hooks.len();
-                        let (hs, must): (Vec<usize>, bool) = match fin_ref {
-                            Step::Tick(_) => ((1..=n).collect(), true),
-                            Step::Dec(h, f, _) => (vec![h + 1], *f),
-                            _ => unreachable!(),
-                        };
-                        events.push(json!({"e":"tick","hs":hs,"must":must as u8}));
-                        for (h, b) in &r.rels {
-                            events.push(json!({"e":"rel","h":h+1,"b":b.iter().map(|(k,v)| json!([k,v])).collect::<Vec<_>>(),"q":rig.queue(*h)}));
-                        }
-                        if let Some(m) = &r.panic {
-                            events.push(json!({"e":"panic","msg":m}));
-                        }
-                        events.push(json!({"e":"endtick"}));
                         let o = outcome_json(&r.rels, &r.panic);
                         EXH.with(|e| e.borrow_mut().push((o.to_string(), o, events)));
                     });
@@ -359,9 +372,6 @@ fn main() {
                     caseno += 1;
                     nexh += 1;
                     t.ev(json!({"e":"reset","case":caseno,"cfg":cfg.id,"hooks":cfg.kinds,"how":"exhaustive"}));
-                    let mut tt = Some(&mut t);
-                    let mut d = vec![];
-                    run_prefix(&cfg, last, keys, &mut tt, &mut d);
                     for e in events {
                         t.ev(e.clone());
                     }
@@ -372,18 +382,21 @@ fn main() {
                 caseno += 1;
                 t.ev(json!({"e":"reset","case":caseno,"cfg":cfg.id,"hooks":cfg.kinds,"how":"cover"}));
                 {
-                    let mut tt = Some(&mut t);
+                    let mut tt: Option<&mut dyn Sink> = Some(&mut t);
                     let mut d = vec![];
-                    run_prefix(&cfg, last, keys, &mut tt, &mut d);
+                    let rig = run_prefix(&cfg, last, keys, &mut tt, &mut d);
+                    sigs.insert(prefix_sig(&rig));
                 }
+                SIGS.with(|s| sigs.extend(s.borrow().iter().cloned()));
+                let unstable = (sigs.len() > 1) as u8;
                 let n = cfg.kinds.len();
                 let (hs, must): (Vec<usize>, bool) = match &fin {
                     Step::Tick(_) => ((1..=n).collect(), true),
                     Step::Dec(h, f, _) => (vec![h + 1], *f),
                     _ => unreachable!(),
                 };
-                t.ev(json!({"e":"cover","hs":hs,"must":must as u8,"how":"dfs","skipped":skipped as u8,"reached":dfs}));
-                t.ev(json!({"e":"cover","hs":hs,"must":must as u8,"how":"exhaustive","skipped":skipped as u8,"reached":exh}));
+                t.ev(json!({"e":"cover","hs":hs,"must":must as u8,"how":"dfs","skipped":skipped as u8,"unstable":unstable,"reached":dfs}));
+                t.ev(json!({"e":"cover","hs":hs,"must":must as u8,"how":"exhaustive","skipped":skipped as u8,"unstable":unstable,"reached":exh}));
                 summary.push(json!({"cfg":cfg.id,"scripts":scripts,"dfs_outcomes":dfs.len(),"exh_runs":exh_runs,"exh_outcomes":exh.len(),"skipped":skipped}));
             }
             t.ev(json!({"e":"eof"}));
@@ -435,7 +448,7 @@ fn main() {
                                 *c += 1;
                                 rig.enqueue(*h, k, (*h as u32 + 1) * 1000 + (k - 1) * 500 + *c);
                             } else {
-                                let mut none: Option<&mut Trace> = None;
+                                let mut none: Option<&mut dyn Sink> = None;
                                 let mut inst = |body: &mut dyn FnMut()| -> (Vec<Req>, bool) {
                                     body();
                                     (vec![], false)
